@@ -71,7 +71,7 @@ def run(tier: str) -> int:
     chk = Check("C02", tier, "model_checking")
     bound = (5, 3) if tier == "quick" else (6, 4)
     chk.rule = (f"family S: realisable documents of RenderRead.tla (<= {bound[0]} nodes) x 2 option sets; family T (C01's text family); family R: "
-                f"{len(corpus.RICH)} construct-rich documents x the option cube (quick: 4 widths, reduced cube; thorough: 7 widths x full 2^3 x 3 cube) "
+                "44 construct-rich / quote- / dot-bearing documents x the option cube (quick: 4 widths, reduced cube; thorough: 7 widths x full 2^3 x 3 cube) "
                 "+ plaintext; CLI --inplace twice on a subset; non-trivial = distinct (document, options) pair whose first pass changes the input")
     chk.assumptions = ["byte equality is judged on Python strings returned by reformat_text and on file bytes for the CLI subset"]
     model, mres = docs.model_docs(*bound)
@@ -92,7 +92,9 @@ def run(tier: str) -> int:
         T_INFO[x] = (toks, ii, si)
         jobs.append(("T", cname, x, dict(width=w, semantic=(mode == "sem"), cleanups=False)))
     cube = corpus.option_cube(tier)
-    for name, text in corpus.RICH:
+    from harness import typo
+    from harness.props import c09
+    for name, text in corpus.RICH + [("q:" + n, t) for n, t in typo.QUOTE_DOCS] + [("e:" + n, t) for n, t in c09.DOT_DOCS]:
         for o in cube:
             jobs.append(("R", name, text, o))
     results = pmap(eval_pair, jobs, chunksize=100)
@@ -170,6 +172,13 @@ def finding_for(m) -> str | None:
     """C02 failures that are consequences of an open C01 finding: the first pass already changed the document
     structure (so the second pass formats a different document) and the finding's trigger is present."""
     from harness import project, vocab
+    # D37: with smart quotes on, the second pass converts straight quotes the first pass left (adjacent / nested quotations):
+    # same length, and every difference is a straight quote turned into a curly quote of its family
+    if (m["opts"].get("smartquotes") or "--smartquotes" in m["opts"].get("cli", [])) and len(m["pass1"]) == len(m["pass2"]):
+        fam = {'"': "“”", "'": "‘’"}
+        diffs = [(a, b) for a, b in zip(m["pass1"], m["pass2"]) if a != b]
+        if diffs and all(a in fam and b in fam[a] for a, b in diffs):
+            return "D37"
     try:
         changed = project.flat(project.parse_marko(m["src"])) != project.flat(project.parse_marko(m["pass1"]))
     except BaseException:  # noqa: BLE001
